@@ -64,7 +64,8 @@ Section WfSubs.
              else v' = zero_leaf t (s_tid s) /\ wf_subs subs' vs' chosen (s_group s)
       | Opt, VOpt None => pending = 0 /\ wf_subs subs' vs' chosen 0
       | Opt, VOpt (Some x) => pending = 0 /\ is_param (s_tid s) x = true /\ w x /\ wf_subs subs' vs' chosen 0
-      | Many, VList l => pending = 0 /\ wf_many (s_tid s) l /\ wf_subs subs' vs' chosen 0
+      | Many, VList l => pending = 0 /\ (s_req s = true -> l <> []) /\ wf_many (s_tid s) l /\
+                         wf_subs subs' vs' chosen 0
       | _, _ => False
       end
     | _, _ => False
